@@ -43,6 +43,28 @@ type c01SizeCase struct {
 	// Long selects the name of maximal length instead of a short one.
 	Long  bool  `json:"long"`
 	Sizes []int `json:"sizes"`
+	// Seg, for tcp and dot, is how every frame is cut into the pieces single
+	// Reads return: "" (one piece), "1", "2" (one cut at that offset), "1,-1"
+	// (first | middle | last octet).
+	Seg string `json:"seg,omitempty"`
+}
+
+var c01SizeSegs = []string{"", "1", "2", "1,-1"}
+
+func c01SizeSegCuts(seg string) []int {
+	switch seg {
+	case "":
+		return nil
+	case "1":
+		return []int{1}
+	case "2":
+		return []int{2}
+	case "1,-1":
+		return []int{1, -1}
+	}
+	vrt.Fatalf("c01: unknown segmentation %q", seg)
+
+	return nil
 }
 
 // c01SizedQuery builds a well-formed query of exactly size octets on the wire
@@ -87,6 +109,9 @@ func c01Settle() {
 // each answer.
 type c01GatedConn struct {
 	frames [][]byte
+	// cuts are the offsets at which every frame is cut into pieces; a Read
+	// never crosses a cut.
+	cuts   []int
 	cur    int
 	off    int
 	out    bytes.Buffer
@@ -127,7 +152,17 @@ func (c *c01GatedConn) Read(p []byte) (n int, err error) {
 	if c.cur >= len(c.frames) {
 		return 0, io.EOF
 	}
-	n = copy(p, c.frames[c.cur][c.off:])
+	f := c.frames[c.cur]
+	end := len(f)
+	for _, cut := range c.cuts {
+		if cut < 0 {
+			cut = len(f) + cut
+		}
+		if cut > c.off && cut < end {
+			end = cut
+		}
+	}
+	n = copy(p, f[c.off:end])
 	c.off += n
 	if c.off == len(c.frames[c.cur]) {
 		c.cur, c.off = c.cur+1, 0
@@ -153,8 +188,8 @@ func (c *c01GatedConn) SetWriteDeadline(_ time.Time) error { return nil }
 // c01ServeTCPConn runs the real connection loop serveTCPConn (with its
 // recover and its close) on a connection carrying the given messages and
 // returns what was written, per message, matched by ID.
-func c01ServeTCPConn(s *ServerDNS, reqs []*dns.Msg, wires [][]byte) (obs []c01TObs) {
-	conn := &c01GatedConn{}
+func c01ServeTCPConn(s *ServerDNS, reqs []*dns.Msg, wires [][]byte, cuts []int) (obs []c01TObs) {
+	conn := &c01GatedConn{cuts: cuts}
 	for _, w := range wires {
 		conn.frames = append(conn.frames, c01Frame(w))
 	}
@@ -238,14 +273,14 @@ func c01RunSizes(r *vrt.Run, c c01SizeCase) (fs []vrt.Finding) {
 		if c.T == "dot" {
 			s = rig.dot
 		}
-		obs = c01ServeTCPConn(s, reqs, wires)
+		obs = c01ServeTCPConn(s, reqs, wires, c01SizeSegCuts(c.Seg))
 	case c.T == "tcp" || c.T == "dot":
 		s := rig.plain
 		if c.T == "dot" {
 			s = rig.dot
 		}
 		for i := range reqs {
-			obs = append(obs, c01ServeTCPConn(s, reqs[i:i+1], wires[i:i+1])...)
+			obs = append(obs, c01ServeTCPConn(s, reqs[i:i+1], wires[i:i+1], c01SizeSegCuts(c.Seg))...)
 		}
 	default:
 		for i := range reqs {
@@ -270,7 +305,7 @@ func c01RunSizes(r *vrt.Run, c c01SizeCase) (fs []vrt.Finding) {
 		}
 		sub := c01CheckQueryOn(r, c.T, wires[i], reqs[i], res, obs[i])
 		for _, f := range sub {
-			f.Detail = fmt.Sprintf("message %d of sizes %v (%s): %s", i+1, c.Sizes, c.Mode, f.Detail)
+			f.Detail = fmt.Sprintf("message %d of sizes %v (%s, frames cut at %q): %s", i+1, c.Sizes, c.Mode, c.Seg, f.Detail)
 			fs = append(fs, f)
 		}
 	}
@@ -307,17 +342,23 @@ func TestVerifC01Sizes(t *testing.T) {
 				alpha = c01Sizes
 			}
 			for _, x := range tms {
-				for _, long := range []bool{false, true} {
-					vrt.Sequences(len(alpha), 1, 3, func(seq []int) {
-						sizes := make([]int, len(seq))
-						for i, k := range seq {
-							sizes[i] = alpha[k]
-						}
-						emit(c01SizeCase{T: x.t, Mode: x.mode, Long: long, Sizes: sizes})
-					})
-					if !r.Thorough() {
-						for _, sz := range []int{500, 511, 1500, 65000} {
-							emit(c01SizeCase{T: x.t, Mode: x.mode, Long: long, Sizes: []int{0, sz, 0}})
+				segs := []string{""}
+				if x.mode != "" {
+					segs = c01SizeSegs
+				}
+				for _, seg := range segs {
+					for _, long := range []bool{false, true} {
+						vrt.Sequences(len(alpha), 1, 3, func(seq []int) {
+							sizes := make([]int, len(seq))
+							for i, k := range seq {
+								sizes[i] = alpha[k]
+							}
+							emit(c01SizeCase{T: x.t, Mode: x.mode, Long: long, Sizes: sizes, Seg: seg})
+						})
+						if !r.Thorough() {
+							for _, sz := range []int{500, 511, 1500, 65000} {
+								emit(c01SizeCase{T: x.t, Mode: x.mode, Long: long, Sizes: []int{0, sz, 0}, Seg: seg})
+							}
 						}
 					}
 				}
